@@ -169,6 +169,7 @@ var serialOID = asn1.ObjectIdentifier{1, 3, 6, 1, 4, 1, 41482, 3, 7}
 func run(c *core.Ctx) {
 	runModHex(c)
 	certs := runCertificates(c)
+	runScalars(c)
 	runPEM(c, certs)
 	runDER(c)
 }
@@ -513,6 +514,183 @@ func emitEnvelope(c *core.Ctx, class, derName string, der []byte, y *x509.Certif
 		map[string]interface{}{"op": "ParseCertificate (envelope)", "der": hex.EncodeToString(der), "key_algorithm": spki.Algorithm.Algorithm.String(), "key_params": params, "extensions": len(y.Extensions)})
 }
 
+func gZBig(b *big.Int) string { return "(" + b.String() + ")%Z" }
+
+func gNames(n pkix.Name) string {
+	var items []string
+	for _, a := range n.Names {
+		v := "None"
+		if str, ok := a.Value.(string); ok {
+			v = "(Some " + gBytes([]byte(str)) + ")"
+		}
+		items = append(items, core.GPair(gNList(a.Type), v))
+	}
+	return core.GList(items)
+}
+
+// emitFields: what yubiattest.ParseCertificate reported below the envelope (version, serial, validity, names,
+// extension list), compared in Coq with Model.X509Fields.cert_fields of the same bytes.
+func emitFields(c *core.Ctx, class, derName string, der []byte, y *x509.Certificate) {
+	if y.SerialNumber == nil {
+		c.Native("yubiattest.ParseCertificate accepted a certificate without reporting a serial number", hex.EncodeToString(der))
+		return
+	}
+	var exts []string
+	for _, e := range y.Extensions {
+		exts = append(exts, core.GPair(core.GPair(gNList(e.Id), core.GBool(e.Critical)), gBytes(e.Value)))
+	}
+	obs := core.GApp("mkFieldsObs", core.GZ(int64(y.Version)), gZBig(y.SerialNumber), core.GZ(y.NotBefore.Unix()), core.GZ(y.NotAfter.Unix()),
+		gNames(y.Issuer), gNames(y.Subject), core.GList(exts))
+	c.Case(class, core.GApp("CFields", derName, obs),
+		map[string]interface{}{"op": "ParseCertificate (fields)", "der": hex.EncodeToString(der), "version": y.Version, "serial": y.SerialNumber.String(),
+			"not_before": y.NotBefore.UTC().Format(time.RFC3339), "not_after": y.NotAfter.UTC().Format(time.RFC3339),
+			"issuer": y.Issuer.String(), "subject": y.Subject.String(), "extensions": len(y.Extensions)})
+}
+
+// addUniqueIDs inserts issuerUniqueID [1] and / or subjectUniqueID [2] (RFC 5280 4.1.2.8) after the
+// SubjectPublicKeyInfo of a certificate; the enclosing lengths are recomputed (the signature is not, no parser checks it).
+func addUniqueIDs(der []byte, issuer, subject []byte) ([]byte, bool) {
+	cid, cc, _, rest, ok := tlv(der)
+	if !ok || len(rest) != 0 {
+		return nil, false
+	}
+	_, top, ok := children(cc)
+	if !ok || len(top) != 3 {
+		return nil, false
+	}
+	tid, tc, _, _, ok := tlv(top[0])
+	if !ok {
+		return nil, false
+	}
+	ids, fields, ok := children(tc)
+	if !ok {
+		return nil, false
+	}
+	var out [][]byte
+	done := false
+	for i, f := range fields {
+		if !done && ids[i] == 0xa3 { // before the extensions
+			if issuer != nil {
+				out = append(out, encTLV(0x81, append([]byte{0}, issuer...)))
+			}
+			if subject != nil {
+				out = append(out, encTLV(0x82, append([]byte{0}, subject...)))
+			}
+			done = true
+		}
+		out = append(out, f)
+	}
+	if !done {
+		return nil, false
+	}
+	ntbs := encTLV(tid, bytes.Join(out, nil))
+	return encTLV(cid, bytes.Join([][]byte{ntbs, top[1], top[2]}, nil)), true
+}
+
+// runScalars: the INTEGER and time codecs of the model against encoding/asn1 (which the lenient parser uses for them).
+func runScalars(c *core.Ctx) {
+	r := c.Rng
+	intContent := func(z *big.Int) []byte {
+		enc, err := asn1.Marshal(z)
+		if err != nil {
+			return nil
+		}
+		_, content, _, _, ok := tlv(enc)
+		if !ok {
+			return nil
+		}
+		return content
+	}
+	var zs []*big.Int
+	for k := uint(0); k <= 160; k += 8 {
+		p := new(big.Int).Lsh(big.NewInt(1), k)
+		half := new(big.Int).Rsh(p, 1)
+		for _, d := range []int64{-2, -1, 0, 1} {
+			zs = append(zs, new(big.Int).Add(p, big.NewInt(d)), new(big.Int).Neg(new(big.Int).Add(p, big.NewInt(d))),
+				new(big.Int).Add(half, big.NewInt(d)), new(big.Int).Neg(new(big.Int).Add(half, big.NewInt(d))))
+		}
+	}
+	for i, n := 0, c.N(150, 3000); i < n; i++ {
+		b := make([]byte, 1+r.Intn(24))
+		r.Read(b)
+		z := new(big.Int).SetBytes(b)
+		if r.Intn(2) == 0 {
+			z.Neg(z)
+		}
+		zs = append(zs, z)
+	}
+	for _, z := range zs {
+		if content := intContent(z); content != nil {
+			c.Case("integer-encode", core.GApp("CInt", gZBig(z), gBytes(content)), map[string]interface{}{"op": "asn1.Marshal(big.Int)", "value": z.String(), "content": hex.EncodeToString(content)})
+		}
+	}
+	parseInt := func(class string, content []byte) {
+		var z *big.Int
+		_, err := asn1.Unmarshal(encTLV(2, content), &z)
+		g := "None"
+		if err == nil && z != nil {
+			g = "(Some " + gZBig(z) + ")"
+		}
+		c.Case(class, core.GApp("CIntParse", gBytes(content), g), map[string]interface{}{"op": "asn1.Unmarshal(INTEGER)", "content": hex.EncodeToString(content), "err": fmt.Sprint(err)})
+	}
+	parseInt("integer-parse", nil)
+	for _, lead := range []byte{0x00, 0xff, 0x7f, 0x80, 0x01} {
+		for _, next := range []byte{0x00, 0x7f, 0x80, 0xff} {
+			parseInt("integer-parse-leading-octets", []byte{lead, next})
+			parseInt("integer-parse-leading-octets", []byte{lead, next, 0x55})
+		}
+		parseInt("integer-parse-leading-octets", []byte{lead})
+	}
+	for i, n := 0, c.N(100, 2000); i < n; i++ {
+		b := make([]byte, 1+r.Intn(20))
+		r.Read(b)
+		if r.Intn(3) == 0 {
+			b[0] = core.Pick[byte](r, 0, 0xff)
+		}
+		parseInt("integer-parse", b)
+	}
+	// times
+	parseTime := func(class string, tag byte, content []byte) {
+		var t time.Time
+		params := ""
+		if tag == 24 {
+			params = "generalized"
+		}
+		_, err := asn1.UnmarshalWithParams(encTLV(tag, content), &t, params)
+		g := "None"
+		if err == nil {
+			g = "(Some " + core.GZ(t.Unix()) + ")"
+		}
+		c.Case(class, core.GApp("CTime", core.GN(uint64(tag)), gBytes(content), g),
+			map[string]interface{}{"op": "asn1.Unmarshal(time)", "tag": tag, "content": string(content), "err": fmt.Sprint(err)})
+	}
+	for i, n := 0, c.N(150, 3000); i < n; i++ {
+		y := 1950 + r.Intn(100)
+		if r.Intn(4) == 0 {
+			y = core.Pick(r, 1950, 1969, 1970, 1999, 2000, 2038, 2049)
+		}
+		mo, d := 1+r.Intn(12), 1+r.Intn(28)
+		if r.Intn(4) == 0 {
+			mo, d = core.Pick(r, 1, 2, 2, 12, 3), core.Pick(r, 1, 28, 29, 30, 31)
+		}
+		h, mi, sec := r.Intn(24), r.Intn(60), r.Intn(60)
+		if r.Intn(8) == 0 {
+			h, mi, sec = core.Pick(r, 0, 23, 24), core.Pick(r, 0, 59, 60), core.Pick(r, 0, 59, 60)
+		}
+		parseTime("utctime", 23, []byte(fmt.Sprintf("%02d%02d%02d%02d%02d%02dZ", y%100, mo, d, h, mi, sec)))
+		gy := core.Pick(r, y, y+100, 2050, 2100, 2400, 9999, 1600, 1900, 1, 0)
+		parseTime("generalizedtime", 24, []byte(fmt.Sprintf("%04d%02d%02d%02d%02d%02dZ", gy, mo, d, h, mi, sec)))
+	}
+	for _, bad := range []string{"", "Z", "240101000000", "2401010000000", "24010100000Z0", "24a101000000Z", "240101000000z", "24010100000 Z", "240100000000Z", "240001000000Z",
+		"241301000000Z", "240132000000Z", "230229000000Z", "240229000000Z", "000229000000Z", "990229000000Z"} {
+		parseTime("utctime-directed", 23, []byte(bad))
+	}
+	for _, bad := range []string{"", "20240101000000", "2024010100000Z", "202401010000000Z", "2024a101000000Z", "20240229000000Z", "21000229000000Z", "20000229000000Z",
+		"19000229000000Z", "00000101000000Z", "99991231235959Z", "20241301000000Z", "20240100000000Z"} {
+		parseTime("generalizedtime-directed", 24, []byte(bad))
+	}
+}
+
 func runCertificates(c *core.Ctx) []genCert {
 	r := c.Rng
 	rd := rngReader{r}
@@ -610,8 +788,23 @@ func runCertificates(c *core.Ctx) []genCert {
 					b[0] |= 0x40
 					sn = new(big.Int).SetBytes(b)
 				}
+				switch (si + 2*gi + 3*pi) % 9 {
+				case 2:
+					sn = big.NewInt(core.Pick[int64](r, 1, 127, 128, 255, 256, 32767, 32768))
+				case 5:
+					sn = new(big.Int).Lsh(big.NewInt(1), core.Pick[uint](r, 63, 64, 127, 158))
+				}
+				nb, na := now.Add(-time.Duration(pi)*time.Hour), now.Add(time.Duration(100+gi)*24*time.Hour)
+				switch (2*si + gi + pi) % 7 {
+				case 1: // GeneralizedTime for the end of validity
+					na = core.Pick(r, time.Date(2050, 1, 1, 0, 0, 0, 0, time.UTC), time.Date(9999, 12, 31, 23, 59, 59, 0, time.UTC), time.Date(2100, 2, 28, 12, 0, 1, 0, time.UTC))
+				case 3: // the edges of the UTCTime window, leap days
+					nb = core.Pick(r, time.Date(1950, 1, 1, 0, 0, 0, 0, time.UTC), time.Date(1970, 1, 1, 0, 0, 0, 0, time.UTC), time.Date(1999, 12, 31, 23, 59, 59, 0, time.UTC),
+						time.Date(2000, 2, 29, 0, 0, 0, 0, time.UTC))
+					na = core.Pick(r, time.Date(2049, 12, 31, 23, 59, 59, 0, time.UTC), time.Date(2024, 2, 29, 23, 59, 59, 0, time.UTC), time.Date(2038, 1, 19, 3, 14, 8, 0, time.UTC))
+				}
 				t := &x509.Certificate{SerialNumber: sn, Subject: names[(si+pi)%len(names)],
-					NotBefore: now.Add(-time.Duration(pi) * time.Hour), NotAfter: now.Add(time.Duration(100+gi) * 24 * time.Hour),
+					NotBefore: nb, NotAfter: na,
 					SignatureAlgorithm: g.alg}
 				p.fill(t)
 				parent := &x509.Certificate{SerialNumber: big.NewInt(1), Subject: names[(gi+1)%len(names)], SubjectKeyId: []byte{7, 7, 7}}
@@ -678,6 +871,37 @@ func runCertificates(c *core.Ctx) []genCert {
 		// the envelope as a Coq-compared case
 		derName := defineDER(gc.der)
 		emitEnvelope(c, "envelope", derName, gc.der, y)
+		emitFields(c, "fields", derName, gc.der, y)
+		// the same certificate carrying issuer / subject unique identifiers (legal, rarely used): everything else,
+		// the extension list included, is reported as before
+		for ui, ids := range [][2][]byte{{{1, 2, 3}, nil}, {nil, {9}}, {{0xaa}, {0xbb, 0xcc}}} {
+			if !c.Thorough() && (gi+ui)%3 != 0 {
+				continue
+			}
+			der4, ok := addUniqueIDs(gc.der, ids[0], ids[1])
+			if !ok {
+				continue
+			}
+			in4 := map[string]interface{}{"certificate": gc.name + " (unique identifiers added)", "der": hex.EncodeToString(der4)}
+			y4, y4err, p, msg := parseY(der4)
+			s4, s4err := x509.ParseCertificate(der4)
+			switch {
+			case p:
+				c.Native("panic in yubiattest.ParseCertificate (unique identifiers): "+msg, in4)
+			case s4err != nil:
+				c.Stat("unique-ids-stdlib-rejects")
+			case y4err != nil:
+				c.Native("yubiattest.ParseCertificate rejects a certificate with unique identifiers that crypto/x509 accepts: "+y4err.Error(), in4)
+			default:
+				if d := diffFields(y4, s4, true); len(d) > 0 {
+					c.Native("yubiattest.ParseCertificate disagrees with crypto/x509 on "+strings.Join(d, ",")+" (unique identifiers present)", in4)
+				} else {
+					c.NativeCheck(1)
+				}
+				emitFields(c, "fields-unique-ids", defineDER(der4), der4, y4)
+				emitModHex(c, "modhex-parsed-certificate", y4.Extensions)
+			}
+		}
 
 		// (b) RSA key algorithm without the NULL parameter
 		if gc.rsa {
@@ -697,7 +921,9 @@ func runCertificates(c *core.Ctx) []genCert {
 					} else {
 						c.NativeCheck(1)
 						c.Stat("null-removed-accepted")
-						emitEnvelope(c, "envelope-null-removed", defineDER(der2), der2, y2)
+						d2name := defineDER(der2)
+						emitEnvelope(c, "envelope-null-removed", d2name, der2, y2)
+						emitFields(c, "fields-null-removed", d2name, der2, y2)
 					}
 				}
 				if _, e := x509.ParseCertificate(der2); e != nil {
